@@ -1,4 +1,4 @@
-(* C02 simulation: Rt is preserved by the stop / API / status-write steps (heavy, brute force). *)
+(* C02 simulation: Rt is preserved by the stop / API steps (heavy, brute force). *)
 From Coq Require Import List ZArith NArith Bool Lia.
 From RecordUpdate Require Import RecordSet.
 From PC.Base Require Import Assoc.
@@ -7,22 +7,6 @@ Import ListNotations RecordSetNotations.
 
 Section RtA.
 Context (cs : amap pconf).
-
-Lemma has_step s th e s' : step_core s th e = Some s' -> forall j, has_inst s j -> has_inst s' j.
-Proof.
-  intros H j Hj.
-  destruct (step_core_kind _ _ _ _ H) as [? ?|i x ? ? ? ? ? ?|H0|H0|H0|i s0 ? H0|i s0 b ? H0|H0|i ? H0|H0|H0]; subst; auto.
-  - destruct e; kind_cases H0; try has_tac.
-    unfold has_inst in *. cbn. rewrite get_set. destruct (N.eqb i j); [discriminate|exact Hj].
-  - destruct e; kind_cases H0; has_tac.
-  - destruct e; kind_cases H0; has_tac.
-  - kind_cases H0; has_tac.
-  - kind_cases H0; has_tac.
-  - destruct e; kind_cases H0; has_tac.
-  - kind_cases H0; has_tac.
-  - destruct e; kind_cases H0; has_tac.
-  - destruct e; kind_cases H0; has_tac.
-Qed.
 
 Lemma Rt_step_stop s o th e s' : Rt s o -> ev_facts o e -> (forall j, has_inst s j -> has_inst s' j) ->
   step_stop s th e = Some s' -> Rt s' o.
@@ -53,13 +37,6 @@ Proof.
     eapply (thread_reg_some (has_inst s)); [apply Ha|eassumption].
   - destruct found as [i9|]; (intros [Hq|[n9 Hq]]; try discriminate Hq). injection Hq as <- <-.
     eapply (thread_reg_some (has_inst s)); [apply Ha|eassumption].
-Qed.
-
-Lemma Rt_step_state s o th i s0 s' : Rt s o -> (forall j, has_inst s j -> has_inst s' j) ->
-  step_state s th i s0 = Some s' -> Rt s' o.
-Proof.
-  intros HRt Hh H. pose proof HRt as [H1 Ha Hb H2 H3 H4 H5 H6].
-  kind_cases H; split_andb; subst; rt_pre; rt_direct H1 Ha Hb H2 H3 H4 H5 H6 Hh.
 Qed.
 
 End RtA.
